@@ -178,7 +178,28 @@ class TmpVar(BlockRewriter):
         return out
 
 
-MODES = {"flipcmp": FlipCmp, "earlyret": EarlyRet, "elseify": Elseify, "swapif": SwapIf, "demorgan": DeMorgan, "tmpvar": TmpVar}
+class WithLock(BlockRewriter):
+    """`with self.<x>lock/event/cond:` (no `as`) -> `self.x.acquire(); try: BODY finally: self.x.release()`"""
+    def rewrite(self, stmts):
+        out = []
+        for st in stmts:
+            if isinstance(st, ast.With) and len(st.items) == 1 and st.items[0].optional_vars is None and \
+                    isinstance(st.items[0].context_expr, ast.Attribute) and isinstance(st.items[0].context_expr.value, ast.Name) and \
+                    st.items[0].context_expr.value.id == "self" and any(
+                        k in st.items[0].context_expr.attr.lower() for k in ("lock", "event", "cond")):
+                e = st.items[0].context_expr
+                acq = ast.Expr(value=ast.Call(func=ast.Attribute(value=e, attr="acquire", ctx=ast.Load()), args=[], keywords=[]))
+                rel = ast.Expr(value=ast.Call(func=ast.Attribute(value=ast.Attribute(value=ast.Name(id="self", ctx=ast.Load()),
+                                                                                   attr=e.attr, ctx=ast.Load()),
+                                                                 attr="release", ctx=ast.Load()), args=[], keywords=[]))
+                out.append(ast.copy_location(acq, st))
+                out.append(ast.copy_location(ast.Try(body=st.body, handlers=[], orelse=[], finalbody=[rel]), st))
+            else:
+                out.append(st)
+        return out
+
+
+MODES = {"withlock": WithLock, "flipcmp": FlipCmp, "earlyret": EarlyRet, "elseify": Elseify, "swapif": SwapIf, "demorgan": DeMorgan, "tmpvar": TmpVar}
 
 
 def transform(text, mode):
